@@ -183,6 +183,9 @@ def wellformed(E, S, label, filtered=True):
     E.true(ok, f"{label}: wellformed: one value per stored subscript", f"subs {subs.shape}, vals {vals.shape}, order {n}")
     if not ok:
         return
+    if subs.dtype == object and any(isinstance(v, SymInt) for v in subs.ravel().tolist()):
+        # symbolic integer subscripts (e.g. derived from random draws): the solver enumerates their values
+        subs = np.array([int(v) for v in subs.ravel().tolist()], dtype=np.int64).reshape(subs.shape)
     flat = subs.ravel().tolist()
     isint = subs.dtype.kind in "iu" or all(isinstance(v, (int, np.integer)) and not isinstance(v, bool) for v in flat)
     E.true(isint, f"{label}: wellformed: integer subscripts", f"dtype {subs.dtype}, e.g. {flat[:3]}")
